@@ -19,7 +19,8 @@ type TraitOf[V any] struct {
 func NewTraitOf[V any](config Config, options ...func(t *Trait)) *TraitOf[V] {
 	t := &TraitOf[V]{}
 
-	t.Trait = *NewTrait(config, options...)
+	// Trait is set up in place: janitor has to work on the instance that is used by the cache, not on a copy of it.
+	t.Trait.init(config, options...)
 
 	return t
 }
